@@ -470,7 +470,7 @@ def pool_shard(binp, seed, first, runs, tmpdir, idx, test="TestScenarios"):
     covflag = [f"-test.gocoverdir={os.environ['GOCOVERDIR']}"] if os.environ.get("VERIF_COVER") else []
     p = subprocess.run([binp, "-test.run", f"^{test}$", "-test.timeout", "3600s", *covflag], env=env, stdout=subprocess.PIPE, stderr=subprocess.STDOUT, text=True)
     o = {"accepted": 0, "rejected": [], "mon_ok": 0, "monfail": [], "crash": None, "progs": {}, "first_accept": None,
-         "cmd": f"POOL_SEED={seed} POOL_FIRST={first} POOL_RUNS={runs} {binp} -test.run ^{test}$", "maxrunning": 0}
+         "cmd": f"POOL_SEED={seed} POOL_FIRST={first} POOL_RUNS={runs} {binp} -test.run ^{test}$", "maxrunning": 0, "inconclusive": 0}
     last_run = None
     try:
         for line in open(monp):
@@ -503,7 +503,10 @@ def pool_shard(binp, seed, first, runs, tmpdir, idx, test="TestScenarios"):
                 if o["first_accept"] is None:
                     o["first_accept"] = line[:300]
             elif line.startswith("REJECT "):
-                o["rejected"].append(line[:900])
+                if "model exploration budget exceeded" in line:
+                    o["inconclusive"] += 1  # the subset construction ran out of budget: neither accepted nor rejected
+                else:
+                    o["rejected"].append(line[:900])
         os.unlink(trp)
     return o
 
@@ -517,11 +520,12 @@ def run_pool(res, binp, seed, total, tag, test="TestScenarios", shards=None):
             outs = list(ex.map(lambda k: pool_shard(binp, seed, k * per, per, tmpdir, k, test), range(shards)))
         else:
             outs = list(ex.map(lambda k: pool_shard(binp, seed * 100 + k, 0, per, tmpdir, k, test), range(shards)))
-    agg = {"runs": 0, "accepted": 0, "rejected": 0, "monitor_ok": 0, "monitor_failures": 0, "distinct_programs": 0, "max_simultaneously_running": 0}
+    agg = {"runs": 0, "accepted": 0, "rejected": 0, "inconclusive_budget": 0, "monitor_ok": 0, "monitor_failures": 0, "distinct_programs": 0, "max_simultaneously_running": 0}
     progs = set()
     label = "pool-" + test
     for o in outs:
         agg["accepted"] += o["accepted"]
+        agg["inconclusive_budget"] += o["inconclusive"]
         agg["monitor_ok"] += o["mon_ok"]
         agg["runs"] += len(o["progs"])
         agg["max_simultaneously_running"] = max(agg["max_simultaneously_running"], o["maxrunning"])
@@ -544,6 +548,9 @@ def run_pool(res, binp, seed, total, tag, test="TestScenarios", shards=None):
                 res.add(Problem("monitor", f"{label}: {(mm.group(2) if mm else rest)[:600]}", {"scenario": o["progs"].get(k), "replay_cmd": o["cmd"] + f" (POOL_ONLY={k})"},
                                 key=(o["progs"].get(k) or "") + " " + rest[:200]))
     agg["distinct_programs"] = len(progs)
+    if test == "TestScenarios" and agg["inconclusive_budget"] * 50 > max(1, agg["runs"]):
+        res.add(Problem("correspondence", f"{label}: the acceptor ran out of exploration budget on {agg['inconclusive_budget']} of {agg['runs']} scenarios (more than 2%): "
+                        "the tie to the model is too weak to be relied on", None, key="pool-budget"))
     if outs and outs[0]["progs"]:
         k0 = sorted(outs[0]["progs"])[0]
         res.samples.append({"mode": label, "scenario": outs[0]["progs"][k0], "model_verdict": outs[0]["first_accept"]})
